@@ -10,7 +10,7 @@ import (
 func init() {
 	register(&property{
 		ID:          "C10",
-		Explanation: "Static decision of the selection policies' contract by path evaluation of every Selector.Select (with leastConns/hostByHashing inlined) over pools of 0..3 upstreams and every availability vector, connection-count vector and random draw: (R1) every upstream returned was reported available by available() on that very path; no method is called on a nil pool slot; (R2) the deterministic-coverage policies (first, random, least_conn) return an upstream whenever some upstream is available, and all policies return nil when none is; (R3) first returns the earliest available one, least_conn one with the smallest count among the available; (R4) Upstream.available = healthy and not full, every peer consulted (truth table); (R5) round_robin takes each probe index from its own atomic increment executed in the same loop iteration; ip_hash hashes only the upstream's string and the client IP.",
+		Explanation: "Static decision of the selection policies' contract by path evaluation of every Selector.Select (with leastConns/hostByHashing inlined) over pools of 0..3 upstreams and every availability vector, connection-count vector and random draw: (R1) every upstream returned was reported available by available() on that very path; no method is called on a nil pool slot; (R2) the deterministic-coverage policies (first, random, least_conn) return an upstream whenever some upstream is available, and all policies return nil when none is; (R3) first returns the earliest available one, least_conn one with the smallest count among the available; (R4) Upstream.available = healthy and not full, every peer consulted (truth table); (R5) round_robin takes each probe index from its own atomic increment executed in the same loop iteration; ip_hash hashes only the upstream's string and the client IP. The pool state (availability of every upstream and, for least_conn, 0..2 connections each) is fixed per evaluation - 1, 2..6, 4..36, 8..216 states for pools of 0..3 - whether or not the policy asks for it; round_robin is evaluated for every starting residue of its counter and must return an upstream whenever one is available.",
 		NotDecided:  "'Returns one whenever one exists' for random_choose (its reservoir is indexed by pool position and can miss - noted, not claimed), for ip_hash when the hash is 0 and for round_robin beyond R5; distribution/fairness of the random policies; HRW stability when other upstreams leave.",
 		Run:         runC10,
 	})
